@@ -71,6 +71,7 @@ func cmdCheck(args []string) int {
 	maxPaths := fs.Int("maxpaths", 0, "path budget per harness (0 = tier default)")
 	budget := fs.Duration("budget", 0, "wall-clock exploration budget (0 = tier default)")
 	verbose := fs.Bool("v", false, "verbose")
+	noMerge := fs.Bool("nomerge", false, "disable diamond/region merging")
 	if len(args) < 2 {
 		fmt.Fprintln(os.Stderr, "usage: symgo check <Cxx> <quick|thorough>")
 		return 2
@@ -117,6 +118,7 @@ func cmdCheck(args []string) int {
 	if *trace {
 		eng.nworkers = 1
 	}
+	eng.noMerge = *noMerge
 	eng.initStubs()
 	var runRe *regexp.Regexp
 	if *run != "" {
